@@ -491,8 +491,12 @@ func c15Records(c *core.Ctx) {
 		add(fmt.Sprintf("idx/jtrunc/%d/0", n))
 	}
 	// index.json is small: every position x every interesting byte
+	idxBytes := interesting
+	if c.Quick() {
+		idxBytes = []int{'"', ':', 'x', 0, '}', '/'}
+	}
 	for pos := 0; pos < len(idx); pos++ {
-		for _, b := range interesting {
+		for _, b := range idxBytes {
 			add(fmt.Sprintf("idx/jsub/%d/%d", pos, b))
 		}
 	}
